@@ -20,6 +20,13 @@ or one per build; given to map (1 input per node), to payload arrays, to reduce 
 to 5), to batched reductions with batches of different length (3 + 2, 2 + 2 + 1), to transform, and to from_source cells
 (no input); every such program ends with a held object applied to nodes with one input, then many, then one again; plus an
 exhaustive small scope (every form x two operations in a row).
+Every program also writes one sub-computation TWICE (x.op(...) two times: map, reduce, named reduction, scalar arithmetic, expand,
+broadcast; equal names, distinct node objects), optionally puts something different on top of each copy, and combines the two in
+ONE action (binary, or join and a reduction): the graph of that single action reaches two nodes of one name.  Then
+Cascade.from_actions is called on SOME of the program's actions, each time on a further build nothing has de-duplicated yet
+(de-duplication rewires the nodes it is given in place): one action (mostly the one just described), one action given twice, the
+same action of two builds, two or three actions, a random subset or multiset, all, none -- as a list, a tuple or an iterator; plus
+an exhaustive small scope (nine programs that write a sub-computation twice x eleven ways of handing the actions over).
 Every program is built TWICE from
 its recorded spec, with freshly created function objects / bound methods / objects with a __repr__
 (objects without one are the program's own and shared by the two builds: their address is their
@@ -31,6 +38,9 @@ Oracle (direct reading of the property on the real objects):
   * both builds give the same names, cell by cell;
   * Cascade.from_actions over the actions of both builds has pairwise distinct node names, keeps
     name -> computation, and serialises;
+  * the same for Cascade.from_actions over any selection of the actions of a build (however many, however handed over): pairwise
+    distinct names, serialise() gives one entry per node and no input outside the graph, exactly the names reachable from the
+    selected actions, each with the callable / statics / number of inputs / outputs it was built with, the actions untouched;
   * every action that existed before an operation has the same dims, coordinates and node objects
     after it (also when the operation raised);
   * every node, right after it was built, holds the callable arguments its author declared (the harness' own record; for
@@ -1036,7 +1046,7 @@ def gen_unions(rng, prog, nact):
     an iterator.  fresh = on a build of its own (de-duplication rewires the nodes it is given in place)."""
     if nact == 0:
         return []
-    form = lambda: rng.choice(["list", "list", "tuple", "iter"])
+    form = lambda: rng.choice(["list", "list", "tuple", "iter", "plus", "iadd"])
     dup = [t for t, o in enumerate(prog["ops"]) if o.get("probe") == TWICE]
     out = []
     one = {"sel": [nact - 1 if dup and rng.random() < 0.7 else rng.randrange(nact)], "form": form(), "fresh": True}
@@ -1074,12 +1084,24 @@ def union_check(sel, form, world, label):
     before = [snap(a) for a in sel]
     given = list(sel) if form == "list" else tuple(sel) if form == "tuple" else (a for a in sel)
     try:
-        cas = Cascade.from_actions(given)
+        if form in ("plus", "iadd") and len(sel) >= 2:
+            # the union taken cascade by cascade: from_actions of each action, joined with + or +=
+            cas = Cascade.from_actions([sel[0]])
+            for a in sel[1:]:
+                other = Cascade.from_actions([a])
+                if form == "plus":
+                    cas = cas + other
+                else:
+                    cas += other
+        else:
+            cas = Cascade.from_actions(given)
         gnodes = list(cas._graph.nodes())
         names = [n.name for n in gnodes]
         if len(names) != len(set(names)):
             dup = next(x for x in names if names.count(x) > 1)
-            fails.append(("union-keeps-duplicate-names", f"Cascade.from_actions over {label} has {len(names)} nodes but {len(set(names))} names, e.g. {dup[:24]}..."))
+            # through + / += this is a recorded open finding of its own (known_findings.json): keep the signatures apart
+            sig = "cascade-add-keeps-duplicate-names" if form in ("plus", "iadd") else "union-keeps-duplicate-names"
+            fails.append((sig, f"Cascade.from_actions over {label} has {len(names)} nodes but {len(set(names))} names, e.g. {dup[:24]}..."))
         else:
             ser = serialise(cas._graph)
             if sorted(ser) != sorted(names) or any((i if isinstance(i, str) else i[0]) not in ser for v in ser.values() for i in v.get("inputs", {}).values()):
@@ -1090,10 +1112,13 @@ def union_check(sel, form, world, label):
                 break
         if set(names) - set(want):
             fails.append(("union-changed-computation", f"Cascade.from_actions over {label} has {len(set(names) - set(want))} node name(s) that no node of these actions had"))
-        if set(want) - set(names):
+        # `+` and `+=` also merge nodes whose payloads compare equal (the documented behaviour of deduplicate_nodes for
+        # graphs of any origin): with callables whose == is laxer than identity that legitimately drops a name, so the
+        # "no name lost" clause is judged for from_actions only
+        if set(want) - set(names) and form not in ("plus", "iadd"):
             fails.append(("union-lost-nodes", f"Cascade.from_actions over {label} has {len(set(names))} names, the actions reach {len(want)}"))
     except AssertionError as e:
-        fails.append(("union-keeps-duplicate-names", f"Cascade.from_actions / serialise over {label} raised AssertionError {e}"))
+        fails.append(("cascade-add-keeps-duplicate-names" if form in ("plus", "iadd") else "union-keeps-duplicate-names", f"Cascade.from_actions / serialise over {label} raised AssertionError {e}"))
     after = [snap(a) for a in sel]
     if any(not same_snap(b, c) for b, c in zip(before, after)):
         fails.append(("operand-changed", f"Cascade.from_actions over {label} changed one of them"))
